@@ -516,7 +516,11 @@ def checkState (ρ : Nat → Int) (allObjs : Bool) (s : MSt) (σ : Sem.State) : 
 
 def regsOk (s : MSt) : Bool := s.st.regs.all fun (v, d) => wfDataB d && d.size == v.size
 
-def objsOk (s : MSt) : Bool := s.objs.all fun (_, o) => o.mem.all fun c => wfDataB c.2
+/-- the executable part of `RegionOK` for every object: well-formed cell values of at most 8 bytes, offsets and
+ends inside the i64 range (the no-overflow precondition of the C05 model) -/
+def objsOk (s : MSt) : Bool :=
+  s.objs.all fun (_, o) => o.mem.all fun c =>
+    wfDataB c.2 && decide (c.2.size ≤ 8) && decide (i64Min ≤ c.1) && decide (c.1 + (c.2.size : Int) ≤ i64Max)
 
 /-- the step is inside the PROVED fragment (on the state before the step) -/
 def defInFrag (s : MSt) (d : Def) : Bool :=
@@ -536,7 +540,8 @@ def defInBroad (s : MSt) : Def → Bool
     let A := s.st.eval a
     -- (a merge-write stops at the first target without memory object: such pointers are not in the class)
     decide (C12.WellSized a) && decide (C12.WellSized v) && A.abs.isNone && !A.top && !A.rel.isEmpty &&
-      (A.rel.length == 1 || A.rel.all fun p => (objGet s.objs p.1).isSome)
+      (A.rel.length == 1 || A.rel.all fun p => (objGet s.objs p.1).isSome) &&
+      (A.rel.all fun p => decide (p.2.interval.stop + (v.bytesize : Int) ≤ i64Max)) && decide (v.bytesize ≤ 8)
   | .Load x a =>
     let A := s.st.eval a
     decide (C12.WellSized a) && x.size > 0 && A.abs.isNone
@@ -668,7 +673,10 @@ def handleSc (j : Json) : Except String String := do
               match checkState ρ false im σ with
               | some e =>
                 return s!"spec class=sc-excluded:{kind}{if inFrag then "" else "-validated"} expected=member impl={e} at={" ".intercalate rs}"
-              | none => pure ()
+              | none =>
+                -- the invariant the conditional theorem does not re-establish: the specialised values are well-formed
+                if inFrag && !regsOk im then
+                  return s!"spec class=sc-result-not-wellformed:{kind} expected=well-formed-registers impl={(im.st.regs.filter fun (v, d) => !(wfDataB d && d.size == v.size)).map fun (v, d) => v.name ++ "=" ++ showDData d}"
         | none => pure ()
   match model, impl with
   | none, none => pure ()
